@@ -134,7 +134,7 @@ CHECKS = {
     ),
     "C16": dict(
         test="TestC16",
-        quick=dict(procs=6, checks=1500),
+        quick=dict(procs=8, checks=800),
         thorough=dict(procs=32, checks=6000, timeout=1800),
         rule="rapid draws (type, value incl. holder bytes, extra buffer space 0/1/64/4096; a second type incl. nocopy fields with a well-formed or mutated message for the decode half, decoded once from a guarded buffer and once from the binary field of a previously decoded envelope, optionally with a failing call in between); "
              "non-trivial = value reaches a map or pointer and extra>0; distinct by hash(type signature, canonical output, extra)",
